@@ -678,6 +678,94 @@ pub fn e4_scenarios(filter: &str) -> Vec<ConnScenario> {
     v
 }
 
+/// C07, "protocols before the manager": fill protocol X's event channel to capacity (4096 dial-failure notifications
+/// while X does not poll), then end the connection. `ProtocolSet::report_connection_closed` must not tell the manager
+/// before X's notification has been enqueued, i.e. while X is blocked the application must not see ConnectionClosed and
+/// the peer still counts as connected; once X drains, everybody is told.
+fn backpressure_order_check(ctx: &mut Ctx) {
+    use crate::env::node::MonitorCmd;
+    let result = std::thread::spawn(|| -> Result<(usize, usize), Viol> {
+        let rt = crate::env::driver::runtime(5);
+        let _g = rt.enter();
+        let scn = sc("c07", 100_000, false, 0, vec![]);
+        let mut w = World::new();
+        let mut st = scn.setup(&mut w);
+        let _ = w.nodes[st.l].cmd.send(NodeCmd::Dial(st.peer_r));
+        w.run_to_quiescence(100_000);
+        let est = |h: &MonitorHandle| h.log.lock().iter().filter(|e| matches!(e, Seen::Established { .. })).count();
+        if est(&st.x) != 1 || est(&st.y) != 1 {
+            return Err(Viol::new("machinery/backpressure-setup", "connection was not established in the back-pressure scenario"));
+        }
+        let _ = st.x.cmd.send(MonitorCmd::Pause);
+        w.run_to_quiescence(100_000);
+        // 4096 dial failures: each is one DialFailure notification to every protocol
+        let capacity = 4096usize;
+        for i in 0..capacity {
+            let p = crate::util::peer(900_000 + i as u64);
+            let a: multiaddr::Multiaddr = format!("/ip4/10.200.{}.{}/tcp/1", i / 250, i % 250 + 1).parse().unwrap();
+            let _ = w.nodes[st.l].cmd.send(NodeCmd::DialAddress(a.with(multiaddr::Protocol::P2p(p.into()))));
+            w.run_to_quiescence(100_000);
+        }
+        let y_failures = st.y.log.lock().iter().filter(|e| matches!(e, Seen::DialFailure { .. })).count();
+        if y_failures != capacity {
+            return Err(Viol::new("machinery/backpressure-setup", format!("expected {capacity} dial failures at protocol Y, saw {y_failures}")));
+        }
+        // end the connection while X cannot take another event
+        w.cut_link(0);
+        w.run_to_quiescence(100_000);
+        let app_closed = |w: &World| w.nodes[st.l].log.lock().iter().filter(|e| matches!(e, NodeLog::Event(s) if s.starts_with("ConnectionClosed"))).count();
+        let y_closed = st.y.log.lock().iter().filter(|e| matches!(e, Seen::Closed { .. })).count();
+        if app_closed(&w) != 0 {
+            return Err(Viol::new(
+                "c07/manager-told-before-protocols",
+                format!("protocol X's event channel is full so its ConnectionClosed cannot be enqueued yet, but the transport manager was already told (application saw ConnectionClosed); protocol Y closed events: {y_closed}"),
+            ));
+        }
+        let _ = w.nodes[st.l].cmd.send(NodeCmd::Dial(st.peer_r));
+        w.run_to_quiescence(100_000);
+        let last = w.nodes[st.l].log.lock().iter().rev().find_map(|e| if let NodeLog::DialResult(_, r) = e { Some(r.clone()) } else { None });
+        if !matches!(&last, Some(Err(e)) if e.contains("AlreadyConnected")) {
+            return Err(Viol::new(
+                "c07/peer-disconnected-before-protocols-told",
+                format!("while a protocol has not been told yet the peer must still count as connected; dial answered {last:?}"),
+            ));
+        }
+        // X drains: now everybody is told, exactly once
+        let _ = st.x.cmd.send(MonitorCmd::Resume);
+        w.run_to_quiescence(1_000_000);
+        let x_closed = st.x.log.lock().iter().filter(|e| matches!(e, Seen::Closed { .. })).count();
+        let y_closed = st.y.log.lock().iter().filter(|e| matches!(e, Seen::Closed { .. })).count();
+        if x_closed != 1 || y_closed != 1 || app_closed(&w) != 1 {
+            return Err(Viol::new(
+                "c07/closed-not-reported-after-backpressure",
+                format!("after protocol X drained its channel: X closed {x_closed}, Y closed {y_closed}, application closed {} (each must be 1)", app_closed(&w)),
+            ));
+        }
+        st.pc = 0;
+        Ok((capacity, w.driver.steps as usize))
+    })
+    .join();
+    match result {
+        Ok(Ok((n, steps))) => {
+            ctx.sub("backpressure_order_check", serde_json::json!({"dial_failures_queued_at_blocked_protocol": n, "driver_steps": steps, "held": true}));
+            ctx.cov_add("transitions", steps as u64);
+            ctx.cov_add("traces_validated_against_impl", 1);
+        }
+        Ok(Err(v)) => {
+            if v.signature.starts_with("machinery/") {
+                ctx.machinery_error(format!("{}: {}", v.signature, v.what));
+            } else {
+                ctx.violation(crate::report::Violation {
+                    signature: v.signature,
+                    what: v.what,
+                    replay: serde_json::json!({"engine": "scripted", "scenario": "backpressure_order_check"}),
+                });
+            }
+        }
+        Err(_) => ctx.machinery_error("back-pressure scenario panicked"),
+    }
+}
+
 pub fn run_filtered(ctx: &mut Ctx, filter: &'static str) {
     let thorough = ctx.tier == crate::report::Tier::Thorough;
     let bound = match (filter, thorough) {
@@ -694,6 +782,9 @@ pub fn run_filtered(ctx: &mut Ctx, filter: &'static str) {
         let e2 = E2 { bound: b, max_executions: 3_000_000, ..Default::default() };
         let out = e2.explore(s);
         e2::absorb(ctx, &s.name(), out);
+    }
+    if filter == "c07" {
+        backpressure_order_check(ctx);
     }
     // ---- E4: the same programs on real TcpTransport / TcpConnection nodes over loopback sockets ----
     if filter == "c07" || filter == "c09" {
@@ -738,6 +829,9 @@ pub fn run_filtered(ctx: &mut Ctx, filter: &'static str) {
 }
 
 pub fn replay(case: &Value) -> Result<String, String> {
+    if case["scenario"] == "backpressure_order_check" {
+        return Err("re-run `verif check C07`: the back-pressure scenario is a single deterministic execution inside the check".into());
+    }
     let s: ConnScenario = serde_json::from_value(case["config"].clone()).map_err(|e| e.to_string())?;
     e2::replay(&s, case)
 }
